@@ -1034,10 +1034,11 @@ static void set_date_and_perm(struct mscabd_file *file, char *filename) {
 
 #if HAVE_ICONV
 static char *convert_filename(char *name) {
-    /* worst case: all characters expand from 1 to 4 bytes */
-    size_t ilen = strlen(name) + 1, olen = ilen * 4;
+    /* worst case: all characters expand from 1 to 4 bytes. The terminator
+     * is not converted (not every encoding can) but appended afterwards */
+    size_t ilen = strlen(name), olen = ilen * 4;
     ICONV_CONST char *i = name;
-    char *newname = malloc(olen), *o = newname;
+    char *newname = malloc(olen + 1), *o = newname;
 
     if (!newname) {
         fprintf(stderr, "WARNING: out of memory converting filename\n");
@@ -1049,8 +1050,9 @@ static char *convert_filename(char *name) {
     while (iconv(converter, &i, &ilen, &o, &olen) == (size_t) -1) {
         if (errno == EILSEQ || errno == EINVAL) {
             /* invalid or incomplete multibyte sequence: skip it */
+            if (ilen == 0 || olen < 3) break;
             i++; ilen--;
-            memcpy(o, "\xEF\xBF\xBD", 3); o += 3; olen += 3;
+            memcpy(o, "\xEF\xBF\xBD", 3); o += 3; olen -= 3;
         }
         else /* E2BIG: should be impossible to get here */ {
             free(newname);
@@ -1059,6 +1061,7 @@ static char *convert_filename(char *name) {
             return NULL;
         }
     }
+    *o = '\0';
     return newname;
 }
 
